@@ -211,6 +211,10 @@ var plainCorpus = ops.Corpus
 func runC01(rc *core.RunCtx) {
 	t := rc.Tape
 	v := pickVariant(rc, nil)
+	if t.Bool(1, 6, "deferred-op") {
+		runC01Deferred(rc, v)
+		return
+	}
 	op := pickOp(rc, v, opSource{Corpus: plainCorpus, Gen: true, Mutation: true})
 	plan := pickPlan(rc, false)
 	cfg := Cfg{Variant: v, Op: op, Plan: plan, Sched: Sched(t.Choose(int(NumScheds), "sched")), CancelAt: -1, ParkDir: t.Bool(1, 2, "parkdir")}
@@ -230,6 +234,40 @@ func runC01(rc *core.RunCtx) {
 	if ok {
 		rc.Res.Sample = map[string]any{"variant": v.Name, "op": op.Query, "vars": op.Vars, "plan": planDesc(plan), "sched": cfg.Sched.String(), "released": out.Sig, "data": out.Payloads[0].Raw, "errors": refexec.SortedErrs(out.Payloads[0].Errors)}
 	}
+}
+
+// runC01Deferred: operations with @defer are valid operations too. Content is judged by the
+// defer-aware reference (delivery order is C13's concern), and every failure user code really
+// produced must have its entry in the errors of some payload.
+func runC01Deferred(rc *core.RunCtx, v *uni.Variant) {
+	t := rc.Tape
+	op := pickOp(rc, v, opSource{Corpus: ops.DeferCorpus, Gen: true, Defer: true})
+	plan := pickPlan(rc, false)
+	cfg := Cfg{Variant: v, Op: op, Plan: plan, Sched: Sched(t.Choose(int(NumScheds), "sched")), CancelAt: -1, ParkDir: t.Bool(1, 2, "parkdir")}
+	out := Execute(rc, cfg)
+	info, ok := checkDeferredOpt(rc, cfg, out, false)
+	rc.W.Count("variant_" + v.Name)
+	rc.W.Count("deferred_operations")
+	rc.Res.Nontrivial = info != nil && info.Incremental > 0
+	rc.Res.Sig = sigOf("defer", v.Name, op.Query, plan.Seed, plan.NullPM, plan.ErrPM, plan.DirPM, plan.MaxList, strings.Join(out.Sig, ","))
+	if !ok {
+		return
+	}
+	var all []refexec.Err
+	for _, p := range out.Payloads {
+		all = append(all, p.Errors...)
+	}
+	raised := out.U.Raised()
+	rc.W.CountN("raised_failures", len(raised))
+	if missing := extraErrs(all, raised); len(missing) > 0 {
+		var sb strings.Builder
+		for i, p := range out.Payloads {
+			fmt.Fprintf(&sb, "\n  [%d] path=%q label=%q data=%s errors=%v", i, p.Path, p.Label, p.Raw, refexec.SortedErrs(p.Errors))
+		}
+		rc.Fail("originating-failure-not-reported", "deferred", "failures %q were produced by resolvers/directives but no payload reports them\nvariant=%s sched=%s op=%q plan=%v\npayloads:%s", missing, v.Name, cfg.Sched, op.Query, planDesc(plan), sb.String())
+		return
+	}
+	rc.Res.Sample = map[string]any{"variant": v.Name, "op": op.Query, "plan": planDesc(plan), "sched": cfg.Sched.String(), "payloads": len(out.Payloads), "raised_failures": len(raised)}
 }
 
 func runC06(rc *core.RunCtx) {
